@@ -325,8 +325,9 @@ SINGLES = ["S", "B", "U", "K", "X", "N", "C"]
 QUICK_PAIRS = ["SC", "BB", "BU", "BK", "BC", "UK", "UN", "UC", "KN", "KC", "NC", "UU", "KK", "XC", "XU", "XK"]     # each < ~4 min
 SLOW_PAIRS = ["SB", "SU", "SK", "BN", "XN", "XB", "XX"]        # 4-18 min each
 SPLIT_PAIRS = ["SN", "SS", "NN"]                     # only decided when case-split on the executors' transaction ids
-TRIPLES = ["BKC", "UNC", "KCN", "BNC", "BSC"]        # 10-55 min each under load
-HARD = ["XS", "BBS", "SSB", "BBN"]                   # attempted, no verdict within an hour: tier `experimental` only (not registered)
+TRIPLES = ["BKC", "UNC"]                             # 10-20 min each under load
+HARD = ["XS", "BBS", "SSB", "BBN", "KCN", "BNC", "BSC"]   # no verdict within an hour (first four) or 40-55 min under load and not re-measured since the
+                                                     # real execution_task was added (last three): tier `experimental` only (not registered)
 ROLE_DOC = ("(S finish ok+handoff, B blocked by predecessor, U retry, K error barrier, X validation failure of a done tx, "
             "N cursor claim + real execution_task dispatch, C commit)")
 
